@@ -22,6 +22,8 @@ pub struct C18;
 
 pub const WORDS: &[&str] = &["a", "b", "A", "ab", "Ab", "c", "a", "b", "İ", "ß", "SS", "Σ", "σ", "ς", "é", "É", "the", "The"];
 pub const SEPS: &[&str] = &[" ", " ", "  ", "\t", "\n", " \r\n"];
+/// White_Space code points that are not ASCII whitespace (two readings of "word"; see check)
+pub const SEPS_WIDE: &[&str] = &["\u{b}", "\u{a0}", "\u{3000}", "\u{85}", " \u{2028}", "\u{2003} "];
 
 fn join(w: &[String], seps: &[String], lead: bool) -> String {
     let mut s = String::new();
@@ -48,8 +50,8 @@ impl Prop for C18 {
     fn fuzz_decode(bytes: &[u8]) -> Option<Case> {
         crate::fuzzdec::c18(bytes)
     }
-    const RULE: &'static str = "two sequences of 0-8 words over a small vocabulary with repeats, case variants and non-ASCII words with special case mappings, joined by runs of ASCII whitespace (leading/trailing runs included) x ignore_case. Oracle: index pairs strictly increasing in both coordinates, matched words equal (under to_lowercase when requested), their number equals the textbook LCS length, reported lengths are the word counts, edited_words are the complements of the matched index sets. Non-trivial: LCS length strictly between 0 and min(len) with a repeated word. Distinct = distinct serialised case.";
-    const ESSENTIAL: &'static [&'static str] = &["ignore_case", "case_sensitive", "empty_side", "repeated_word", "partial_match"];
+    const RULE: &'static str = "two sequences of 0-8 words over a small vocabulary with repeats, case variants and non-ASCII words with special case mappings, joined by runs of ASCII whitespace (leading/trailing runs included), one separator in thirteen a White_Space code point that is not ASCII whitespace (VT, NBSP, U+3000, NEL, U+2028, em space) x ignore_case. Oracle: index pairs strictly increasing in both coordinates, matched words equal (under to_lowercase when requested), their number equals the textbook LCS length, reported lengths are the word counts, edited_words are the complements of the matched index sets. Non-trivial: LCS length strictly between 0 and min(len) with a repeated word. Distinct = distinct serialised case.";
+    const ESSENTIAL: &'static [&'static str] = &["ignore_case", "case_sensitive", "empty_side", "repeated_word", "partial_match", "non_ascii_whitespace"];
 
     fn budget(tier: Tier) -> Budget {
         match tier {
@@ -80,7 +82,7 @@ impl Prop for C18 {
             }
             (a, b)
         });
-        let seps = || proptest::collection::vec(select(SEPS).prop_map(str::to_string), 1..=3);
+        let seps = || proptest::collection::vec(prop_oneof![12 => select(SEPS).prop_map(str::to_string), 1 => select(SEPS_WIDE).prop_map(str::to_string)], 1..=3);
         (prop_oneof![(words(), words()), derived], seps(), seps(), any::<bool>())
             .prop_map(|((a, b), sep_a, sep_b, ignore_case)| Case { a, b, sep_a, sep_b, ignore_case })
             .boxed()
@@ -88,7 +90,7 @@ impl Prop for C18 {
 
     fn assumptions() -> Vec<String> {
         vec![
-            "words are separated by ASCII whitespace (the quantifier is over word sequences; the metrics pass cleaned text)".into(),
+            "words are separated by ASCII whitespace in most cases, where every reading of `whitespace-separated` agrees; for texts that also contain other White_Space code points the answer must be right under one reading (ASCII whitespace or Unicode White_Space) applied to both texts".into(),
             "case-insensitive equality is str::to_lowercase equality".into(),
         ]
     }
@@ -100,32 +102,71 @@ impl Prop for C18 {
         out.label(if c.ignore_case { "ignore_case" } else { "case_sensitive" });
         out.label_if(c.a.is_empty() != c.b.is_empty(), "empty_side");
         let key = |w: &String| if c.ignore_case { w.to_lowercase() } else { w.clone() };
-        let ka: Vec<String> = c.a.iter().map(key).collect();
-        let kb: Vec<String> = c.b.iter().map(key).collect();
-        let lcs = model::lcs_len(&ka, &kb);
-        let repeated = ka.iter().collect::<HashSet<_>>().len() < ka.len() || kb.iter().collect::<HashSet<_>>().len() < kb.len();
-        out.label_if(repeated, "repeated_word");
-        let partial = lcs > 0 && lcs < ka.len().min(kb.len());
-        out.label_if(partial, "partial_match");
-        out.nontrivial = partial && repeated;
+        // "whitespace-separated words" has two readings once a text contains White_Space code
+        // points that are not ASCII whitespace (vertical tab, NBSP, U+3000, ...): the answer has to
+        // be right under ONE reading applied to BOTH texts. With ASCII separators only (the bulk of
+        // the cases) the readings coincide.
+        let ascii = |t: &str| -> Vec<String> { t.split_ascii_whitespace().map(str::to_string).collect() };
+        let unicode = |t: &str| -> Vec<String> { t.split_whitespace().map(str::to_string).collect() };
+        let (aa, ab) = (ascii(&ta), ascii(&tb));
+        let (ua, ub) = (unicode(&ta), unicode(&tb));
+        let two_readings = aa != ua || ab != ub;
+        out.label_if(two_readings, "non_ascii_whitespace");
+        {
+            let ka: Vec<String> = aa.iter().map(key).collect();
+            let kb: Vec<String> = ab.iter().map(key).collect();
+            let lcs = model::lcs_len(&ka, &kb);
+            let repeated = ka.iter().collect::<HashSet<_>>().len() < ka.len() || kb.iter().collect::<HashSet<_>>().len() < kb.len();
+            out.label_if(repeated, "repeated_word");
+            let partial = lcs > 0 && lcs < ka.len().min(kb.len());
+            out.label_if(partial, "partial_match");
+            out.nontrivial = partial && repeated;
+        }
         let (m, la, lb) = match_words(&ta, &tb, c.ignore_case);
-        ensure!(out, la == c.a.len() && lb == c.b.len(), "reported lengths ({la},{lb}) != word counts ({},{})", c.a.len(), c.b.len());
-        for w in m.windows(2) {
-            ensure!(out, w[0].0 < w[1].0 && w[0].1 < w[1].1, "matching not strictly increasing: {m:?}");
-        }
-        for (i, j) in &m {
-            ensure!(out, *i < ka.len() && *j < kb.len(), "match index out of range: {m:?}");
-            ensure!(out, ka[*i] == kb[*j], "matched words differ: {:?} vs {:?}", c.a[*i], c.b[*j]);
-        }
-        ensure!(out, m.len() == lcs, "{} matches, a longest common subsequence has {lcs}: a = {:?}, b = {:?}, matches {m:?}", m.len(), c.a, c.b);
-        // edited_words: complement of the case-sensitive matching
         let (m2, _, _) = match_words(&ta, &tb, false);
         let (ea, eb) = edited_words(&ta, &tb);
-        let want_a: HashSet<usize> = (0..c.a.len()).filter(|i| !m2.iter().any(|p| p.0 == *i)).collect();
-        let want_b: HashSet<usize> = (0..c.b.len()).filter(|j| !m2.iter().any(|p| p.1 == *j)).collect();
-        ensure!(out, ea == want_a && eb == want_b, "edited_words = ({ea:?}, {eb:?}), complement of the matching is ({want_a:?}, {want_b:?})");
-        let lcs_cs = model::lcs_len(&c.a, &c.b);
-        ensure!(out, ea.len() == c.a.len() - lcs_cs && eb.len() == c.b.len() - lcs_cs, "edited_words sizes ({},{}) do not match the LCS length {lcs_cs}", ea.len(), eb.len());
+        let verify = |wa: &[String], wb: &[String]| -> Result<(), String> {
+            let ka: Vec<String> = wa.iter().map(key).collect();
+            let kb: Vec<String> = wb.iter().map(key).collect();
+            let lcs = model::lcs_len(&ka, &kb);
+            if la != wa.len() || lb != wb.len() {
+                return Err(format!("reported lengths ({la},{lb}) != word counts ({},{})", wa.len(), wb.len()));
+            }
+            for w in m.windows(2) {
+                if !(w[0].0 < w[1].0 && w[0].1 < w[1].1) {
+                    return Err(format!("matching not strictly increasing: {m:?}"));
+                }
+            }
+            for (i, j) in &m {
+                if !(*i < ka.len() && *j < kb.len()) {
+                    return Err(format!("match index out of range: {m:?}"));
+                }
+                if ka[*i] != kb[*j] {
+                    return Err(format!("matched words differ: {:?} vs {:?}", wa[*i], wb[*j]));
+                }
+            }
+            if m.len() != lcs {
+                return Err(format!("{} matches, a longest common subsequence has {lcs}: a = {wa:?}, b = {wb:?}, matches {m:?}", m.len()));
+            }
+            // edited_words: complement of the case-sensitive matching
+            let want_a: HashSet<usize> = (0..wa.len()).filter(|i| !m2.iter().any(|p| p.0 == *i)).collect();
+            let want_b: HashSet<usize> = (0..wb.len()).filter(|j| !m2.iter().any(|p| p.1 == *j)).collect();
+            if ea != want_a || eb != want_b {
+                return Err(format!("edited_words = ({ea:?}, {eb:?}), complement of the matching is ({want_a:?}, {want_b:?})"));
+            }
+            let lcs_cs = model::lcs_len(wa, wb);
+            if ea.len() != wa.len() - lcs_cs || eb.len() != wb.len() - lcs_cs {
+                return Err(format!("edited_words sizes ({},{}) do not match the LCS length {lcs_cs}", ea.len(), eb.len()));
+            }
+            Ok(())
+        };
+        if let Err(e1) = verify(&aa, &ab) {
+            if !two_readings {
+                out.fail(e1);
+            } else if let Err(e2) = verify(&ua, &ub) {
+                out.fail(format!("wrong under both readings of `whitespace` for texts {ta:?} / {tb:?}: ASCII whitespace: {e1}; Unicode White_Space: {e2}"));
+            }
+        }
         out
     }
 }
